@@ -24,6 +24,7 @@ RULE = (
     "more than 1e-3). One case in sixteen is a short build_pvt_gas table (maximum pressure 25..400 psia handed over as float, "
     "Python / numpy int or by keyword; reservoir temperature with a fractional part in half of them): every tabulated Z must "
     "equal z_factor_DAK at that row and be a root of the equation of state. Distinct = hash of the case record."
+    " One rectangle case in forty evaluates Z from four threads at once (switch interval 1e-6 s) and requires the sequential values."
 )
 ASSUMPTIONS = [
     "the Dranchuk-Abou-Kassem equation is the published 11-constant form written in vf/refs.py (C1 = A1 + A2/T_r + ...)",
@@ -66,7 +67,7 @@ def strategy_(draw):
         # "tends to 1 as pressure tends to 0": the quantifier is 0 < p_r, so go far below any table pressure
         s = dict(s, p=draw(gens.loguniform(1e-13, 1e-4)) * s["ppc"])
         return {"src": "towards-zero-pressure", "T": s["T"], "p": s["p"], "tpc": s["tpc"], "ppc": s["ppc"], "T_form": draw(forms.scalar_form()), "p_form": draw(forms.scalar_form(allow_int=False))}
-    return {"src": "rectangle", "T": s["T"], "p": s["p"], "tpc": s["tpc"], "ppc": s["ppc"], "T_form": draw(forms.scalar_form()), "p_form": draw(forms.scalar_form())}
+    return {"src": "rectangle", "T": s["T"], "p": s["p"], "tpc": s["tpc"], "ppc": s["ppc"], "T_form": draw(forms.scalar_form()), "p_form": draw(forms.scalar_form()), "threads": draw(st.integers(0, 39)) == 0}
 
 
 def strategy(tier):
@@ -233,6 +234,27 @@ def check_case(case) -> Result:
     if 1.05 <= tr_near <= 3.0 and math.isfinite(z_near) and z_near > 0:
         g_near = min(abs(refs.dak_residual(z_near, tr_near, pr, variant=False)), abs(refs.dak_residual(z_near, tr_near, pr, variant=True)))
         res.check("C06/root-on-neighbouring-isotherm", g_near, 1e-8, f"Z={z_near!r} at T_r={tr_near!r} (evaluated right after T_r={tr!r}), p_r={pr!r}: not a root of the equation of state at its own temperature (Z on the first isotherm {z_first!r});")
+    # Z(T, p) evaluated from several threads at once (a thread pool building tables for many wells) is the same
+    # function: every concurrent result must equal the sequential one.  Sound on any correct implementation whatever
+    # the interleaving; a race on shared module state shows with high probability at this switch interval.
+    if case.get("threads"):
+        import concurrent.futures
+
+        pts = [(T + k * 7.0, p * f, tpc, ppc) for k in range(4) for f in (1.0, 0.5, 0.25)]
+        pts = [q for q in pts if 1.05 <= (q[0] + 459.67) / (tpc + 459.67) <= 3.0 and q[1] > 0]
+        seq = [float(G.z_factor_DAK(*q)) for q in pts]
+        old = sys.getswitchinterval()
+        sys.setswitchinterval(1e-6)
+        try:
+            with concurrent.futures.ThreadPoolExecutor(4) as ex:
+                par = list(ex.map(lambda q: [float(G.z_factor_DAK(*q)) for _ in range(6)], pts * 2))
+        finally:
+            sys.setswitchinterval(old)
+        for q, zs, want in zip(pts * 2, par, seq * 2):
+            if any(abs(z_ - want) > 1e-12 * want for z_ in zs):
+                res.bad("C06/same-value-from-concurrent-threads", f"z_factor_DAK{q!r} = {want!r} sequentially but {zs!r} when evaluated from four threads at once")
+                break
+        res.labels["threads"] = True
     # (iv) low-pressure limit
     if pr <= 1e-2:
         res.check("C06/low-pressure-limit", abs(z - 1.0), 0.6 * pr + 1e-12, f"|Z-1| with Z={z!r} at p_r={pr!r} T_r={tr!r};")
